@@ -113,12 +113,13 @@ static dalloc_t* da_of(const LZ4F_dctx* d) { int i; for (i = 0; i < 4; i++) if (
 /* call trace of one decode_frame session, replayed call by call on the dStage model (Model/FrameDS.lean) by the judge:
    per call 7 x u64 : input offered, output capacity, input consumed, output produced, return value, size of the tmpIn and tmpOutBuffer allocations */
 static vec_t g_trace; static u64 g_tracectr, g_tracectr2, n_traces, n_trace_calls; static int g_trace_fresh = 0, g_thorough = 0;
+static long long g_trace_budget = 150ll << 20;   /* bytes of trace records per run (thorough: 600 MB): keeps the case file and the judge time bounded */
 static void trace_call(size_t a, size_t b, size_t c, size_t d, size_t r, const dalloc_t* da) { u64 v[7]; v[0] = a; v[1] = b; v[2] = c; v[3] = d; v[4] = r; v[5] = da ? da->sz[0] : 0; v[6] = da ? da->sz[1] : 0; vec_put(&g_trace, v, sizeof v); }
 
 static decres_t decode_frame(LZ4F_dctx* dctx, const u8* frame, size_t n, int policy, int skipChecksums, const u8* dict, size_t dictSize, u64 pseed)
 {
     decres_t d; size_t ip = 0; LZ4F_decompressOptions_t opt; u64 save = g_rs; int idle = 0; size_t hint = 1;
-    int tracing = g_trace_fresh && (n <= 20000 ? (g_thorough || n > 64 || policy != 1 || (++g_tracectr2 % 3) == 0) : (n <= 300000 && policy != 4 && (++g_tracectr % 4) == 0));      /* policy 4 on a long input: thousands of calls that are each offered everything (quadratic for the list model) */
+    int tracing = g_trace_fresh && g_trace_budget > 0 && (n <= 20000 ? (g_thorough || n > 64 || policy != 1 || (++g_tracectr2 % 3) == 0) : (n <= 300000 && policy != 4 && (++g_tracectr % 4) == 0));      /* policy 4 on a long input: thousands of calls that are each offered everything (quadratic for the list model) */
     memset(&d, 0, sizeof d); memset(&opt, 0, sizeof opt); opt.skipChecksums = (unsigned)skipChecksums;
     dalloc_t* da = da_of(dctx); size_t in0 = da ? da->sz[0] : 0, out0 = da ? da->sz[1] : 0;
     g_trace.n = 0;
@@ -155,7 +156,7 @@ static decres_t decode_frame(LZ4F_dctx* dctx, const u8* frame, size_t n, int pol
     d.consumed = ip; g_rs = save;
     if (tracing && g_trace.n) {
         rec_t t; rec_begin(&t, OP_FRAMETRACE); rec_int(&t, skipChecksums); rec_int(&t, (long long)dictSize); rec_bytes(&t, frame, n); rec_bytes(&t, g_trace.p, g_trace.n);
-        rec_bytes(&t, d.out.p, d.out.n); rec_int(&t, d.verdict); rec_int(&t, policy); rec_int(&t, da ? 1 : 0); rec_int(&t, (long long)in0); rec_int(&t, (long long)out0); rec_write(&t); n_traces++; n_trace_calls += g_trace.n / 56;
+        rec_bytes(&t, d.out.p, d.out.n); rec_int(&t, d.verdict); rec_int(&t, policy); rec_int(&t, da ? 1 : 0); rec_int(&t, (long long)in0); rec_int(&t, (long long)out0); rec_write(&t); n_traces++; g_trace_budget -= (long long)(n + g_trace.n + d.out.n + 128); n_trace_calls += g_trace.n / 56;
     }
     return d;
 }
@@ -305,7 +306,7 @@ int main(int argc, char** argv)
 {
     const char* mode; int thorough, i; u64 seed; u8* data; size_t maxn; LZ4F_cctx* cctx; LZ4F_dctx* dctx;
     if (argc < 6) { fprintf(stderr, "usage: frm mode tier seed casefile crashfile\n"); return 2; }
-    mode = argv[1]; thorough = !strcmp(argv[2], "thorough"); g_thorough = thorough; seed = strtoull(argv[3], 0, 10);
+    mode = argv[1]; thorough = !strcmp(argv[2], "thorough"); g_thorough = thorough; if (thorough) g_trace_budget = 600ll << 20; seed = strtoull(argv[3], 0, 10);
     harness_init(argv[4], argv[5], seed);
     g_dictbuf = xalloc(70000); gen_data(g_dictbuf, 70000, D_LZLIKE);
     { rec_t b; rec_begin(&b, 100); rec_int(&b, 1); rec_bytes(&b, g_dictbuf, 70000); rec_write(&b); }
